@@ -169,6 +169,23 @@ def rule_pairs_groupers(ctx) -> RuleResult:
                     res.report(f"{q}|grouper-order|{name}", f.where(n), q,
                                f"{name} = {txt[:70]} re-orders the per-grouper sequence ({bad[0]}): codes, labels and sizes of different groupers no longer line up, "
                                "so the trailing result axes are attached to the wrong groupers")
+        # per-grouper sequences are produced by walking the groupers in their given order: a comprehension over any other index sequence
+        # (a "largest first" permutation, say) hands results back in that order unless each one is stored under its grouper's own position
+        lab = f.params[0]
+        per_grouper = {"futures", "results", "found_groups", "factorized", "group_idxs"}
+        for n in walk_own(f.node):
+            if not (isinstance(n, ast.Assign) and len(n.targets) == 1 and norm(n.targets[0]) in per_grouper):
+                continue
+            for comp in [x for x in ast.walk(n.value) if isinstance(x, (ast.ListComp, ast.GeneratorExp))]:
+                it = comp.generators[0].iter
+                t = norm(it)
+                ok = t.startswith(f"zip({lab}") or t == lab or t.startswith(f"enumerate({lab}") or t.startswith(f"range(len({lab})") \
+                    or (isinstance(it, ast.Name) and it.id in per_grouper) or t.startswith("zip(") and any(norm(a) in per_grouper | {lab} for a in it.args)
+                res.inst(f"{q}: {norm(n.targets[0])} built by iterating '{t[:40]}': grouper order: {ok}", f"{q}|iter|{norm(n.targets[0])}|{t[:30]}")
+                if not ok:
+                    res.report(f"{q}|per-grouper-sequence-iterates-permutation|{norm(n.targets[0])}", f.where(n), q,
+                               f"'{norm(n)[:70]}' builds a per-grouper sequence by walking '{t[:40]}', not the groupers in their given order: codes, labels and sizes "
+                               "come back permuted unless every result is stored under its grouper's own position (a permutation applied twice is only the identity for swaps)")
         # the ravel receives codes and shape from the same ordering
         for c in calls_in(f.node):
             if norm(c.func) == "_ravel_factorized" or norm(c.func).endswith("map_blocks") and c.args and norm(c.args[0]) == "_ravel_factorized":
